@@ -56,7 +56,7 @@ func GenC07(verifSeed uint64, run int) *Scenario {
 		plan.Envs = append(plan.Envs, e)
 		avoid = append(avoid, FakeEpoch.Unix()+e.ClockOffsetS)
 	}
-	w, cfg := GenWorldCfg(g, GenOpts{FixMTime: true, NoSigning: true, AvoidClock: avoid, ManyFilesP: 0.06})
+	w, cfg := GenWorldCfg(g, GenOpts{FixMTime: true, NoSigning: true, AvoidClock: avoid, ManyFilesP: 0.06, LinkShapes: true})
 	// negative control: the same configuration without a fixed mtime must
 	// depend on the clock, otherwise the clock seam is not reaching the code
 	probe := cloneTree(cfg).(map[string]any)
@@ -100,6 +100,10 @@ func (rt *Runtime) buildUnder(w *World, cfg string, format string, e *Env07) c07
 		alt.Root = rt.relocatedRoot(name)
 		if _, err := os.Stat(alt.Root); err != nil {
 			if err := MaterializeOrder(alt.Root, w.Tree, true); err != nil {
+				out.err = err
+				return out
+			}
+			if err := OutsideTarget(alt.Root, c07OutsideKind); err != nil {
 				out.err = err
 				return out
 			}
@@ -148,6 +152,32 @@ func (rt *Runtime) buildUnder(w *World, cfg string, format string, e *Env07) c07
 		}
 	})
 	return out
+}
+
+// OutsideTarget puts something at <parent of root>/verif-outside/t, the path
+// that links of the source tree may name although it is outside the tree:
+// 0 = a file of mode 0600, 1 = a file of mode 0644, 2 = a directory, 3 =
+// nothing. Every copy of the tree finds another thing there; none of it is a
+// source.
+var c07OutsideKind = 1 // what the relocated copy finds outside (set per scenario)
+
+func OutsideTarget(root string, kind int) error {
+	d := filepath.Join(filepath.Dir(root), "verif-outside")
+	os.RemoveAll(d)
+	if kind == 3 {
+		return nil
+	}
+	if err := os.MkdirAll(d, 0o755); err != nil {
+		return err
+	}
+	t := filepath.Join(d, "t")
+	switch kind {
+	case 2:
+		return os.MkdirAll(filepath.Join(t, "inner"), 0o755)
+	case 1:
+		return os.WriteFile(t, []byte("outside, world readable\n"), 0o644)
+	}
+	return os.WriteFile(t, []byte("outside, private\n"), 0o600)
 }
 
 // relocatedRoot: where the second copy of the source tree lives - on another
@@ -332,6 +362,11 @@ func RunC07(rt *Runtime, sc *Scenario) RunResult {
 	plan := sc.C07
 	if err := Materialize(rt.Root, w.Tree); err != nil {
 		res.Trouble = "materialize: " + err.Error()
+		return res
+	}
+	c07OutsideKind = 1 + sc.Run%3
+	if err := OutsideTarget(rt.Root, 0); err != nil {
+		res.Trouble = "outside target: " + err.Error()
 		return res
 	}
 	rt.SetEnv(w.Env)
